@@ -5,6 +5,7 @@ package main
 import (
 	"bytes"
 	"fmt"
+	"io"
 	"math/rand/v2"
 
 	"github.com/fluhus/biostuff/formats/fasta"
@@ -136,21 +137,13 @@ func (l fastaLayout) render(r *rand.Rand, recs []*fasta.Fasta) []byte {
 // fastaWrite returns the bytes of Write over all records and checks they equal
 // the concatenated MarshalText results.
 func fastaWrite(k *K, recs []*fasta.Fasta) []byte {
-	var w, m bytes.Buffer
-	for i, rec := range recs {
-		if err := rec.Write(&w); err != nil {
-			k.Failf("write-error", "Write of record %d returned %v", i, err)
-		}
-		txt, err := rec.MarshalText()
-		if err != nil {
-			k.Failf("marshal-error", "MarshalText of record %d returned %v", i, err)
-		}
-		m.Write(txt)
+	var ms []func() ([]byte, error)
+	var ws []func(io.Writer) error
+	for _, rec := range recs {
+		ms = append(ms, rec.MarshalText)
+		ws = append(ws, rec.Write)
 	}
-	if !bytes.Equal(w.Bytes(), m.Bytes()) {
-		k.Failf("write-vs-marshal", "Write and MarshalText bytes differ: %d vs %d bytes", w.Len(), m.Len())
-	}
-	return w.Bytes()
+	return heldMarshalCheck(k, ms, ws)
 }
 
 // fastaShape is the writer-shape monitor: an independent line parser.
@@ -259,6 +252,7 @@ func init() {
 		Units: []Unit{
 			{Name: "lengths", TShards: 4, Run: c01Lengths},
 			{Name: "lists", QShards: 2, TShards: 8, Run: c01Lists},
+			{Name: "sizes", QShards: 2, TShards: 8, Run: c01Sizes},
 		},
 	})
 }
@@ -337,5 +331,45 @@ func c01Lists(c *Ctx) {
 				}
 			}
 		})
+	}
+}
+
+// c01Sizes sweeps (name length, sequence length) combinations densely around
+// the multiples of the usual 4 KiB / 16 KiB / 64 KiB buffer sizes, writing two
+// records each (a defect at a record's last line shows in the record that
+// follows it).
+func c01Sizes(c *Ctx) {
+	nameLens := []int{0, 1, 4, 10, 45, 100}
+	type span struct{ lo, hi int }
+	spans := []span{{3800, 4300}}
+	if c.Thorough {
+		nameLens = nil
+		for l := 0; l <= 130; l++ {
+			nameLens = append(nameLens, l)
+		}
+		spans = []span{{3800, 4400}, {7900, 8300}, {11950, 12150}, {16200, 16500}, {65300, 65700}}
+	}
+	idx := int64(0)
+	for _, nl := range nameLens {
+		for _, sp := range spans {
+			for sl := sp.lo; sl <= sp.hi; sl++ {
+				c.Case(idx, func(k *K) {
+					r := k.Rand()
+					recs := []*fasta.Fasta{
+						{Name: randBytesExcl(r, nl, fastaNameExcl), Sequence: randBytesExcl(r, sl, fastaSeqExcl)},
+						genFastaRecord(r, r.IntN(100)),
+					}
+					k.Input("name_len", nl)
+					k.Input("seq_len", sl)
+					text := fastaWrite(k, recs)
+					fastaShape(k, recs, text)
+					fastaDecodeCompare(k, "written text", recs, text)
+					k.Count("records_roundtripped", 2)
+					k.Count("size_sweep_cases", 1)
+					k.Nontrivial([]byte(fmt.Sprint(nl, sl)), text[:min(64, len(text))])
+				})
+				idx++
+			}
+		}
 	}
 }
